@@ -42,8 +42,8 @@ func init() {
 
 func init() {
 	specs["C13"] = &propSpec{engine: "puresim", race: true, quickN: 3000, thorN: 60000, quickS: 70, thorS: 1500,
-		rule:    "one workload = an input pool (generated models as DSL/JSON/shared proto, mutated and truncated DSL, module sets, fga.mod texts, validator strings), an optional warm-up history, an optional cold restart of the parser caches, and 1-4 simulated caller tasks with 1-5 public API calls each, some on one shared input object; one evaluation = that workload executed under one seeded schedule (preemption at ~900 yield points and every ANTLR lock, lock contention, map-order and ULID-clock faults), every result compared with the sequential cold reference computed afterwards, every input compared with its deep copy; a sixth as many further workloads run in a -race build under the race-detector-invisible scheduler; distinct = distinct seam-event-log fingerprint; non-trivial = more than one task, or a warm history, or a cold restart, AND at least one fault fired",
-		mustHit: []string{"preempt", "lock.contend", "restart.cold", "history.warm"},
+		rule:    "one workload = an input pool (generated models as DSL/JSON/shared proto, mutated and truncated DSL, module sets, fga.mod texts, validator strings), an optional warm-up history, an optional cold restart of the parser caches, and 1-4 simulated caller tasks with 1-5 public API calls each, some on one shared input object; one evaluation = that workload executed under one seeded schedule (preemption at ~900 yield points and every ANTLR lock, lock contention, map-order and ULID-clock faults), every result compared with the sequential cold reference computed afterwards, every input compared with its deep copy; every 40th (thorough: 10th) workload also executes its first call as the very first operation of a fresh OS process (restart.process) and compares; a sixth as many further workloads run in a -race build under the race-detector-invisible scheduler; distinct = distinct seam-event-log fingerprint; non-trivial = more than one task, or a warm history, or a cold restart, AND at least one fault fired",
+		mustHit: []string{"preempt", "lock.contend", "restart.cold", "history.warm", "restart.process"},
 		assume:  []string{"the stateless sequential specification out = f(in): a concurrent history is linearizable iff every completed call returned the sequential reference value (no search needed)", "interleavings are explored at inserted yield points (function entries, loop iterations, lock acquisitions); the race detector needs no physical overlap", "for the weighted graph only the verdict and the graph are compared, not which of several applicable sentinel errors is returned"}}
 }
 
